@@ -319,7 +319,7 @@ fn with_rt_of<R>(real: bool, f: impl FnOnce(&Rt) -> R) -> R {
         let mut c = c.borrow_mut();
         if c.is_none() {
             let rt = tokio::runtime::Builder::new_current_thread().enable_all().start_paused(!real).build().unwrap();
-            let listener = rt.block_on(async { tokio::net::TcpListener::bind("127.0.0.1:0").await.unwrap() });
+            let listener = rt.block_on(async { crate::retry_io!(tokio::net::TcpListener::bind("127.0.0.1:0").await) });
             let addr = listener.local_addr().unwrap();
             *c = Some(Rt { rt, listener, addr });
         }
@@ -427,13 +427,13 @@ impl Live {
             r.rt.block_on(async {
                 let mut spares = Vec::new();
                 for _ in 0..n_spares {
-                    let peer = tokio::net::TcpStream::connect(r.addr).await.unwrap();
-                    let (sock, _) = r.listener.accept().await.unwrap();
+                    let peer = crate::retry_io!(tokio::net::TcpStream::connect(r.addr).await);
+                    let (sock, _) = crate::retry_io!(r.listener.accept().await);
                     let (rd, wr) = sock.into_split();
                     spares.push((rd, wr, peer));
                 }
-                let peer = tokio::net::TcpStream::connect(r.addr).await.unwrap();
-                let (sock, _) = r.listener.accept().await.unwrap();
+                let peer = crate::retry_io!(tokio::net::TcpStream::connect(r.addr).await);
+                let (sock, _) = crate::retry_io!(r.listener.accept().await);
                 let (rd, wr) = sock.into_split();
                 let (app_tx, app_rx) = mpsc::channel(if real { APP_CAP } else { 256 });
                 let (cmd_tx, cmd_rx) = mpsc::channel(16);
@@ -559,8 +559,8 @@ impl Live {
         }
         if matches!(act, Act::Attach) {
             let (rd, wr, peer) = if let Some(t) = self.spares.pop() { t } else { with_rt_of(self.real, |r| r.rt.block_on(async {
-                let peer = tokio::net::TcpStream::connect(r.addr).await.unwrap();
-                let (sock, _) = r.listener.accept().await.unwrap();
+                let peer = crate::retry_io!(tokio::net::TcpStream::connect(r.addr).await);
+                let (sock, _) = crate::retry_io!(r.listener.accept().await);
                 let (rd, wr) = sock.into_split();
                 (rd, wr, peer)
             })) };
